@@ -21,6 +21,9 @@ package regprocessor
 //@ func (p *RegProcessor) processBdReq(c2sPayload *pb.C2SWrapper) (*pb.RegistrationResponse, error)
 //@   requires p != nil && !held(&p.selectorMutex) && rheld(&p.selectorMutex) == 0
 //@   ensures @C13: !held(&p.selectorMutex) && rheld(&p.selectorMutex) == 0
+// L4 independent of how the selections are reached: the selector lock is acquired at most once per request, so
+// whatever a request reads under it comes from one subnet set
+//@   ensures @C13: acq(&p.selectorMutex) <= old(acq(&p.selectorMutex)) + 1
 //@   requires len(p.minOverrideSubnets) == len(p.minOverrideSubnetsCumulativeWeights)
 //@   requires len(p.prefixOverrideSubnets) == len(p.prefixOverrideSubnetsCumulativeWeights)
 // C12: the response returned to the client is the very object attached to the wrapper that is forwarded
